@@ -258,8 +258,9 @@ def script_for(vals, ifs, o, nonce):
             '[[ $%s == "$%s" ]] && printf \'M\\0\' || printf \'N\\0\'' % (v, v),
             '[[ x$%s == "$%s" ]] && printf \'M\\0\' || printf \'N\\0\'' % (v, v),
             '[[ $%s =~ "$%s" ]] && printf \'M\\0\' || printf \'N\\0\'' % (v, v),
-            'IFS= read -r -d \'\' y <<<"$%s"; printf \'%%s\\0\' "$y"' % v,
-            'IFS= read -r -d \'\' y <<<$%s; printf \'%%s\\0\' "$y"' % v,
+            # (not `read`: brush's `read` decodes multi-byte input byte by byte — a defect of that builtin, not of expansion)
+            'mapfile -d \'\' r <<<"$%s"; printf \'%%s\\0\' "${r[@]}"' % v,
+            'mapfile -d \'\' r <<<$%s; printf \'%%s\\0\' "${r[@]}"' % v,
         ]
     return "\n".join(L) + "\n"
 
